@@ -1255,3 +1255,123 @@ Proof.
   assert (cid' = cid) by congruence. subst cid'. assert (ci' = ci) by congruence. subst ci'.
   symmetry. eapply allowed_registered; eauto.
 Qed.
+
+(* ================================================================ dynamic registration: what is in force afterwards *)
+Lemma find_client_app_fresh cs ci : find_client cs (c_id ci) = None -> find_client (cs ++ [ci]) (c_id ci) = Some ci.
+Proof.
+  induction cs as [|x r IH]; cbn.
+  - intros _. now rewrite str_eqb_refl.
+  - destruct (str_eqb (c_id ci) (c_id x)); [discriminate|]. exact IH.
+Qed.
+
+Lemma find_client_app_other cs ci c : c <> c_id ci -> find_client (cs ++ [ci]) c = find_client cs c.
+Proof.
+  intro Hne. induction cs as [|x r IH]; cbn.
+  - destruct (str_eqb c (c_id ci)) eqn:E; [apply str_eqb_eq in E; contradiction|reflexivity].
+  - destruct (str_eqb c (c_id x)); [reflexivity|exact IH].
+Qed.
+
+(* what an accepted registration is: the rest of the request was acceptable, the assigned id is new and not empty, the
+   record stored is the one built for the client with the negotiated algorithm, the provider differs by that record only *)
+Lemma register_stored g rq g' ci :
+  register g rq = RegStored g' ci ->
+  rq_ok rq = true /\ c_id ci <> [] /\ find_client (clients g) (c_id ci) = None /\
+  ci = with_reg (rq_rest rq) (negotiate g (rq_alg rq)) /\ g' = add_client g ci.
+Proof.
+  unfold register. destruct (rq_ok rq); cbn [negb]; [|discriminate].
+  destruct (c_id (rq_rest rq)) as [|a l] eqn:Eid; [discriminate|].
+  destruct (find_client (clients g) (a :: l)) eqn:Ef; [discriminate|].
+  intro H. inversion H; subst. cbn. rewrite Eid. repeat split; auto. discriminate.
+Qed.
+
+Lemma register_found g rq g' ci : register g rq = RegStored g' ci -> find_client (clients g') (c_id ci) = Some ci.
+Proof.
+  intro H. apply register_stored in H as [_ [_ [Hf [_ ->]]]]. cbn. now apply find_client_app_fresh.
+Qed.
+
+(* requested and advertised: the permitted set of the new client is exactly {requested} *)
+Theorem register_permitted_exact g rq g' ci a :
+  register g rq = RegStored g' ci -> rq_alg rq = Some a -> In a (prov_algs g) ->
+  find_client (clients g') (c_id ci) = Some ci /\ c_reg ci = RStr a /\ forall x, allowed g' ci x = true <-> x = a.
+Proof.
+  intros H Ha Hin. pose proof (register_found _ _ _ _ H) as Hf. apply register_stored in H as [_ [_ [_ [Hci _]]]].
+  assert (Hr : c_reg ci = RStr a).
+  { rewrite Hci. cbn. unfold negotiate. rewrite Ha. apply str_in_In in Hin. now rewrite Hin. }
+  repeat split; auto; unfold allowed; rewrite Hr; apply str_eqb_eq.
+Qed.
+
+(* not requested, or requested but not advertised: nothing is registered (and the response says so: ci is what it
+   echoes), the provider's supported set applies *)
+Theorem register_dropped g rq g' ci :
+  register g rq = RegStored g' ci ->
+  (rq_alg rq = None \/ exists a, rq_alg rq = Some a /\ ~ In a (prov_algs g)) ->
+  c_reg ci = RAbsent /\ forall x, allowed g' ci x = true <-> In x (prov_algs g).
+Proof.
+  intros H Hq. apply register_stored in H as [_ [_ [_ [Hci ->]]]].
+  assert (Hr : c_reg ci = RAbsent).
+  { rewrite Hci. cbn. unfold negotiate. destruct Hq as [->|[a [-> Hn]]]; [reflexivity|].
+    destruct (str_in a (prov_algs g)) eqn:E; [apply str_in_In in E; contradiction|reflexivity]. }
+  split; auto. intro x. unfold allowed. rewrite Hr. cbn. apply str_in_In.
+Qed.
+
+(* the registration of one client changes nothing for the others, nor the provider's own settings *)
+Theorem register_frame g rq g' ci :
+  register g rq = RegStored g' ci ->
+  prov_algs g' = prov_algs g /\ jar g' = jar g /\ hooks g' = hooks g /\ methods g' = methods g /\
+  (forall c, c <> c_id ci -> find_client (clients g') c = find_client (clients g) c) /\
+  (forall cj x, allowed g' cj x = allowed g cj x).
+Proof.
+  intro H. apply register_stored in H as [_ [_ [_ [_ ->]]]]. cbn. repeat split; auto.
+  intros c Hne. now apply find_client_app_other.
+Qed.
+
+Lemma register_wf g rq g' ci : cfg_wf g = true -> register g rq = RegStored g' ci -> cfg_wf g' = true.
+Proof.
+  intros Hwf H. apply register_stored in H as [_ [Hid [_ [_ ->]]]].
+  unfold cfg_wf in *. cbn. repeat (apply andb_true_iff in Hwf as [Hwf ?]).
+  repeat (apply andb_true_iff; split); auto.
+  rewrite forallb_app. apply andb_true_iff; split; auto. cbn. destruct (c_id ci); [contradiction|reflexivity].
+Qed.
+
+(* ... hence, through the soundness theorem: after an accepted registration that asked for an advertised algorithm a, in
+   every history on the provider as it is afterwards, an object whose parameters take effect for the new client is of
+   algorithm a - and, unless a is "none", verified under a key the key jar holds for that client *)
+Theorem registered_only_requested g rq g' ci a d t0 ops :
+  cfg_wf g = true -> register g rq = RegStored g' ci -> rq_alg rq = Some a -> In a (prov_algs g) ->
+  Forall (fun sr => forall r via v, snd sr = RAuthz (Acc r) via -> r_vr r = Some v ->
+            assoc k_client_id (r_params r) = Some (PS_ (c_id ci)) ->
+            v_alg v = a /\
+            (a <> s_none -> exists n kt, v_key v = Some n /\ alg_kind a = AlgK kt /\ key_for g' (c_id ci) kt n))
+         (run g' d (init t0) ops).
+Proof.
+  intros Hwf H Ha Hin. pose proof (register_wf _ _ _ _ Hwf H) as Hwf'.
+  destruct (register_permitted_exact _ _ _ _ _ H Ha Hin) as [Hf [_ Hal]].
+  pose proof (authenticated_all g' d t0 ops Hwf') as A.
+  eapply Forall_impl; [|exact A]. cbv beta. intros sr Hsr r via v H1 H2 Hc.
+  destruct (Hsr r via v H1 H2) as [c0 [ci0 [Hf0 [Hc0 [Hall [_ [_ [Hk _]]]]]]]].
+  assert (c0 = c_id ci) by congruence. subst c0. assert (ci0 = ci) by congruence. subst ci0.
+  apply Hal in Hall. split; auto. intro Hne.
+  destruct (v_key v) as [n|].
+  - destruct Hk as [kt [Hk1 Hk2]]. exists n, kt. rewrite <- Hall. auto.
+  - apply alg_kind_none in Hk. congruence.
+Qed.
+
+(* a refused registration registers nothing: the provider is as before, and for an id the client database does not
+   hold no object ever takes effect *)
+Theorem unregistered_no_effect g d t0 ops c : cfg_wf g = true -> find_client (clients g) c = None ->
+  Forall (fun sr => forall r via v, snd sr = RAuthz (Acc r) via -> r_vr r = Some v ->
+            assoc k_client_id (r_params r) <> Some (PS_ c))
+         (run g d (init t0) ops).
+Proof.
+  intros Hwf Hnone. pose proof (authenticated_all g d t0 ops Hwf) as A.
+  eapply Forall_impl; [|exact A]. cbv beta. intros sr Hsr r via v H1 H2 Hc.
+  destruct (Hsr r via v H1 H2) as [c0 [ci0 [Hf0 [Hc0 _]]]]. assert (c0 = c) by congruence. subst c0. congruence.
+Qed.
+
+Lemma register_refused_iff g rq : register g rq = RegRefused <-> rq_ok rq = false.
+Proof.
+  unfold register. destruct (rq_ok rq); cbn [negb].
+  - split; [|discriminate]. destruct (c_id (rq_rest rq)); [discriminate|].
+    destruct (find_client (clients g) (n :: l)); discriminate.
+  - split; auto.
+Qed.
